@@ -30,7 +30,9 @@ REQUIRED = {"fetches_completed": 100, "article_reads": 200, "image_checks": 100,
             "with_continuation": 20, "with_redirects": 20, "with_shared_repo": 10, "revision_pinned": 20}
 LEVEL_TEXT = ("Exploration: 400 (quick) / 2e4 (thorough) fetches of the real make_nuwiki against generated wikis with "
               "seeded latencies (= greenlet interleavings at real suspension points) and small batch limits; the "
-              "archive read back through nuwiki.Adapt must equal the closure over the wiki's ground truth.")
+              "archive read back through nuwiki.Adapt must equal the closure over the wiki's ground truth. The synthetic "
+              "server may cap list results below what was asked for (continuation of every list) and serves images at "
+              "its own pace.")
 LEVEL_NOTE = "K speaks one API dialect; HTTP/2, OAuth, retries and real latency distributions are outside."
 TECHNIQUE = "recorded request history + executable wiki model (closure oracle) around the real fetcher under seeded greenlet interleavings"
 
